@@ -395,13 +395,13 @@ def descendants(world, vs):
 # Markov-network worlds (factors over logical variables)
 # --------------------------------------------------------------------------------------------------
 def gen_mn(streams, max_n=6, min_n=2, max_card=3, max_joint=4096, connected=True, dup_rate=0.0,
-           label_mode=None, state_named=None, big_card_rate=0.0, scale_rate=0.0, hub_rate=0.0):
+           label_mode=None, state_named=None, big_card_rate=0.0, scale_rate=0.0, hub_rate=0.0, ring_rate=0.3, coupling=None):
     r = streams.s("world")
     n = r.randint(min_n, max_n)
     hub = hub_rate > 0 and max_n >= 6 and r.random() < hub_rate
     if hub:
         n = r.randint(6, max(6, min(9, max_n + 2)))
-    ring = not hub and n >= 5 and r.random() < 0.3
+    ring = not hub and n >= 5 and r.random() < ring_rate
     card = [r.randint(1 if r.random() < 0.08 and not hub else 2, max_card if not (ring or hub) else 2) for _ in range(n)]
     if big_card_rate and r.random() < big_card_rate:
         card[r.randrange(n)] = r.choice([10, 11, 12])
@@ -452,6 +452,7 @@ def gen_mn(streams, max_n=6, min_n=2, max_card=3, max_joint=4096, connected=True
             if r.random() < density and (a, b) not in edges and (b, a) not in edges:
                 edges.append((a, b))
     zero_rate = r.choice([0.0, 0.0, 0.1])
+    strong = coupling == "strong" and r.random() < 0.5
     factors = []
 
     def rand_factor(scope):
@@ -460,6 +461,9 @@ def gen_mn(streams, max_n=6, min_n=2, max_card=3, max_joint=4096, connected=True
         for _ in range(size):
             if r.random() < zero_rate:
                 vals.append(0.0)
+            elif coupling == "strong" and strong:
+                # strongly coupled potentials: a few large entries, the rest small
+                vals.append(r.choice([0.05, 0.1, 0.2, 5.0, 8.0, 12.0]))
             else:
                 vals.append(r.randint(1, 12) / 4.0)
         if all(x == 0.0 for x in vals):
